@@ -1,181 +1,434 @@
-/-! M3 (part): command table, parsing of the canonical command fragment, dispatch. Import-free.
-The table is *data extracted from the served pool class on every run*; every definition and theorem
-here is for an arbitrary table. -/
+/-! M3, part 1: the command table of a served pool class, the parse of a command line (canonical
+fragment), dispatch and the reply rule.  Import-free.
+
+The *member table* is data extracted from the served pool class with `inspect` on every run; every definition
+and theorem is for an arbitrary table.  All text is `List Char`; a command line arrives already *lexed* into
+structured tokens (the lexer — what argparse regards as option-like, what `int()`, `float()`, `literal_eval`
+and `resolve_dotted_path` accept — is Python's and is validated by the differential run, not proved). -/
 namespace Taskpool.Control
 
-/-- how an argument string is converted (what the real parser's `type=` does) -/
-inductive Conv | int | str | float | literal | dotted
+abbrev Str := List Char
+
+/-- what the real parser's `type=` does with an argument string -/
+inductive Conv | int | str | float | literal | dotted | bool
 deriving DecidableEq, Repr, Inhabited
 
+/-- parser side of a parameter (`ControlParser.add_function_arg`) -/
 inductive PKind
   | positional            -- no default: required positional
   | varPositional         -- `*args`: nargs='*'
-  | optional              -- has a default: `-x/--long VALUE`
-  | flag                  -- bool with default: store_true
+  | optional              -- has a default: `-x VALUE` or `--long VALUE`
+  | flag                  -- annotated bool, has a default: store_true
+deriving DecidableEq, Repr, Inhabited
+
+/-- session side of a parameter (`ControlSession._exec_method_and_respond`) -/
+inductive Pass | byPosition | byStar | byKeyword
 deriving DecidableEq, Repr, Inhabited
 
 structure Param where
-  name    : String
-  kind    : PKind
-  conv    : Conv
-  default : String         -- repr of the default (for optional/flag), "" otherwise
+  name : Str
+  kind : PKind
+  pass : Pass
+  conv : Conv
 deriving DecidableEq, Repr, Inhabited
 
-inductive Target
-  | method (params : List Param)
-  | propRO
-  | propRW (conv : Conv)
-deriving Repr, Inhabited
+inductive MKind | function | propRO | propRW | other
+deriving DecidableEq, Repr, Inhabited
+
+/-- one entry of `inspect.getmembers(cls)`; `params` = the parameters without `self` (a read-write
+property: the one parameter of its setter) -/
+structure Member where
+  name   : Str
+  kind   : MKind
+  params : List Param
+deriving DecidableEq, Repr, Inhabited
+
+/-! ### the command surface (`add_class_commands`) -/
+
+def dashChar (c : Char) : Char := if c = '_' then '-' else c
+/-- `name.replace("_", "-")` -/
+def dash (s : Str) : Str := s.map dashChar
+
+/-- `not name.startswith("_")` -/
+def isPublic (n : Str) : Bool := n.head? != some '_'
+
+def Member.isCommand (m : Member) : Bool :=
+  match m.kind with
+  | .other => false
+  | _ => true
+
+def Member.exposed (m : Member) : Bool := isPublic m.name && m.isCommand
 
 structure Cmd where
-  member : String          -- python identifier
-  target : Target
-deriving Repr, Inhabited
+  name   : Str
+  member : Member
+deriving DecidableEq, Repr, Inhabited
 
 abbrev Table := List Cmd
 
-/-- `name.replace("_", "-")` -/
-def dash (s : String) : String := s.map fun c => if c = '_' then '-' else c
+def toCmd (m : Member) : Cmd := { name := dash m.name, member := m }
 
-def Cmd.name (c : Cmd) : String := dash c.member
+def commandTable (ms : List Member) : Table := (ms.filter Member.exposed).map toCmd
 
-/-! ### short flags: first letter, else its upper case, else none (`add_function_arg`) -/
+def lookupCmd (t : Table) (n : Str) : Option Cmd := t.find? fun c => c.name == n
+
+/-! ### short flags: first letter unless it is `h` or taken, else its upper case, else long form only -/
+
+def Param.isOpt (p : Param) : Bool := p.kind == .optional || p.kind == .flag
+
+def pickFlag (used : List Char) (l : Char) : Option Char :=
+  if l ≠ 'h' ∧ l ∉ used then some l
+  else if l.toUpper ∉ used then some l.toUpper
+  else none
 
 def assignFlags : List Param → List Char → List (Param × Option Char)
   | [], _ => []
   | p :: ps, used =>
-    if p.kind = .optional ∨ p.kind = .flag then
-      let l := p.name.front
-      if ¬ used.contains l then (p, some l) :: assignFlags ps (l :: used)
-      else if ¬ used.contains l.toUpper then (p, some l.toUpper) :: assignFlags ps (l.toUpper :: used)
-      else (p, none) :: assignFlags ps used
+    if p.isOpt then
+      match p.name.head? with
+      | none => (p, none) :: assignFlags ps used
+      | some l =>
+        match pickFlag used l with
+        | some f => (p, some f) :: assignFlags ps (f :: used)
+        | none => (p, none) :: assignFlags ps used
     else (p, none) :: assignFlags ps used
 
-/-! ### values -/
+/-- an option of a (sub-)parser; `param = none` is the `-h` / `--help` action every parser starts with -/
+structure OptSpec where
+  param : Option Param
+  short : Option Char
+  long  : Str
+deriving DecidableEq, Repr, Inhabited
 
-inductive Val
-  | int (i : Int) | str (s : String) | raw (s : String)     -- raw: literal / dotted path / float text, converted outside the model
-  | bool (b : Bool) | default (repr : String) | list (l : List Val)
-deriving Repr, Inhabited
+def helpName : Str := ['h', 'e', 'l', 'p']
+def helpOpt : OptSpec := { param := none, short := some 'h', long := helpName }
 
-def isIntTok (s : String) : Bool :=
-  let t := if s.startsWith "-" then (s.drop 1).toString else s
-  !t.isEmpty && t.all Char.isDigit
+def paramOpt (pf : Param × Option Char) : Option OptSpec :=
+  if pf.1.isOpt then some { param := some pf.1, short := pf.2, long := dash pf.1.name } else none
 
-def convert (c : Conv) (s : String) : Option Val :=
-  match c with
-  | .int => if isIntTok s then s.toInt?.map Val.int else none
-  | .str => some (.str s)
-  | _ => some (.raw s)
+def paramOpts (ps : List Param) : List OptSpec := (assignFlags ps []).filterMap paramOpt
 
-inductive Parsed
-  | call (member : String) (args : List (String × Val))
-  | get (member : String)
-  | set (member : String) (v : Val)
-  | help
-  | error
-  | outside          -- the line is outside the modelled fragment
-deriving Repr, Inhabited
+def optTable (ps : List Param) : List OptSpec := helpOpt :: paramOpts ps
 
-def looksOptional (s : String) : Bool := s.startsWith "-" && !isIntTok s
+def findShort (tbl : List OptSpec) (c : Char) : Option OptSpec := tbl.find? fun o => o.short == some c
+def findLong (tbl : List OptSpec) (n : Str) : Option OptSpec := tbl.find? fun o => o.long == n
+
+/-- pairwise different (Boolean, executable) -/
+def distinctB {α} [BEq α] : List α → Bool
+  | [] => true
+  | a :: l => !l.contains a && distinctB l
+
+/-- argparse refuses (`conflicting option string`) a parser in which two actions share an option string;
+sub-commands must have different names.  `buildOk` = the parser of the handshake can be built. -/
+def optsOk (tbl : List OptSpec) : Bool :=
+  distinctB (tbl.filterMap (·.short)) && distinctB (tbl.map (·.long))
+
+def buildOk (t : Table) : Bool :=
+  distinctB (t.map (·.name)) && t.all fun c => optsOk (optTable c.member.params)
+
+/-! ### tokens and values -/
+
+/-- a positional-looking argument string together with what Python's converters make of it -/
+structure Word where
+  text    : Str
+  int?    : Option Int      -- `int(text)` when that succeeds
+  floatOk : Bool
+  litOk   : Bool            -- `ast.literal_eval(text)` succeeds
+  dotOk   : Bool            -- `resolve_dotted_path(text)` succeeds
+deriving DecidableEq, Repr, Inhabited
+
+inductive Tok
+  | word (w : Word)
+  | short (c : Char)        -- `-c`
+  | long (n : Str)          -- `--name`
+  | other                   -- everything else (`--`, `--a=b`, `-ab`, empty string …): outside the fragment
+deriving DecidableEq, Repr, Inhabited
+
+def Tok.isOther : Tok → Bool
+  | .other => true
+  | _ => false
+
+inductive Atom
+  | int (i : Int)
+  | str (s : Str)
+  | raw (s : Str)           -- float / literal / dotted path: text that Python converts (known to succeed)
+  | bool (b : Bool)
+deriving DecidableEq, Repr, Inhabited
+
+def convert : Conv → Word → Option Atom
+  | .int, w => w.int?.map Atom.int
+  | .str, w => some (.str w.text)
+  | .float, w => if w.floatOk then some (.raw w.text) else none
+  | .literal, w => if w.litOk then some (.raw w.text) else none
+  | .dotted, w => if w.dotOk then some (.raw w.text) else none
+  | .bool, w => some (.bool (!w.text.isEmpty))
+
+inductive ArgVal
+  | one (a : Atom)
+  | many (l : List Atom)
+  | flag (b : Bool)
+  | dflt                    -- the method's own default value
+deriving DecidableEq, Repr, Inhabited
+
+inductive ErrKind
+  | unknownCommand          -- invalid choice
+  | badValue                -- a converter rejected an argument
+  | needsValue              -- an option that takes a value is not followed by one
+  | missing                 -- a required positional is absent
+  | unrecognized            -- left-over arguments
+deriving DecidableEq, Repr, Inhabited
+
+inductive Action
+  | call (member : Str) (args : List (Str × ArgVal))
+  | get (member : Str)
+  | set (member : Str) (v : Atom)
+deriving DecidableEq, Repr, Inhabited
+
+inductive Verdict
+  | act (a : Action)
+  | help (of : Option Str)  -- `none`: the top-level help
+  | error (k : ErrKind)
+deriving DecidableEq, Repr, Inhabited
+
+/-! ### parsing what follows the command name
+
+argparse works from left to right and the first error wins: options up to the first positional-looking
+string, then one run of such strings bound to the positional parameters, then options again.  A second run
+is outside the fragment (argparse's chunking of interleaved positionals is not modelled). -/
 
 structure PState where
-  opts : List (String × Val)          -- options seen
-  pos  : List String                   -- positional tokens in order
-  posEnded : Bool                      -- a positional run has ended (an option came after positionals)
-  bad  : Option Parsed
+  posLeft : List Param                 -- positional parameters not yet bound
+  bound   : List (Str × ArgVal)        -- bound single positionals, in order
+  star    : List Atom                  -- values of the var-positional parameter
+  opts    : List (Str × ArgVal)        -- options seen, latest first
+  extras  : Bool                       -- something was left over (`unrecognized arguments`)
+deriving DecidableEq, Repr, Inhabited
 
-/-- scan the tokens after the command name -/
-def scan (fl : List (Param × Option Char)) : List String → PState → PState
-  | [], st => st
-  | tok :: rest, st =>
-    if st.bad.isSome then st
-    else if tok == "-h" || tok == "--help" then { st with bad := some .help }
-    else if tok.isEmpty || tok.contains '=' || tok == "--" then { st with bad := some .outside }
-    else if looksOptional tok then
-      let hit := fl.find? fun pf =>
-        (tok == "--" ++ dash pf.1.name) || (match pf.2 with | some c => tok == "-" ++ c.toString | none => false)
-      match hit with
-      | none => { st with bad := some (if tok.startsWith "--" then .outside else .error) }   -- abbreviations are argparse's business
-      | some (p, _) =>
-        let st := if st.pos.isEmpty then st else { st with posEnded := true }
-        if p.kind = .flag then scan fl rest { st with opts := st.opts ++ [(p.name, .bool true)] }
+inductive Scan
+  | stop (v : Option Verdict)          -- `none` = outside the fragment
+  | cont (st : PState) (rest : List Tok)
+deriving Repr, Inhabited
+
+def PState.addOpt (st : PState) (n : Str) (v : ArgVal) : PState := { st with opts := (n, v) :: st.opts }
+
+/-- options up to the next positional-looking string -/
+def scanOpts (me : Str) (tbl : List OptSpec) : List Tok → PState → Scan
+  | [], st => .cont st []
+  | .other :: _, _ => .stop none
+  | .word w :: rest, st => .cont st (.word w :: rest)
+  | .short c :: rest, st =>
+    match findShort tbl c with
+    | none => scanOpts me tbl rest { st with extras := true }
+    | some o =>
+      match o.param with
+      | none => .stop (some (.help (some me)))
+      | some p =>
+        if p.kind = .flag then scanOpts me tbl rest (st.addOpt p.name (.flag true))
         else match rest with
-          | [] => { st with bad := some .error }
-          | v :: rest' =>
-            if looksOptional v then { st with bad := some .error }
-            else match convert p.conv v with
-              | none => { st with bad := some .error }
-              | some x => scan fl rest' { st with opts := st.opts ++ [(p.name, x)] }
-    else
-      if st.posEnded then { st with bad := some .outside }        -- interleaved positionals: argparse's chunking
-      else scan fl rest { st with pos := st.pos ++ [tok] }
+          | .word v :: rest' =>
+            match convert p.conv v with
+            | none => .stop (some (.error .badValue))
+            | some a => scanOpts me tbl rest' (st.addOpt p.name (.one a))
+          | _ => .stop (some (.error .needsValue))
+  | .long n :: rest, st =>
+    match findLong tbl n with
+    | none => .stop none                  -- abbreviations are argparse's business
+    | some o =>
+      match o.param with
+      | none => .stop (some (.help (some me)))
+      | some p =>
+        if p.kind = .flag then scanOpts me tbl rest (st.addOpt p.name (.flag true))
+        else match rest with
+          | .word v :: rest' =>
+            match convert p.conv v with
+            | none => .stop (some (.error .badValue))
+            | some a => scanOpts me tbl rest' (st.addOpt p.name (.one a))
+          | _ => .stop (some (.error .needsValue))
 
-/-- bind positional tokens to the positional parameters -/
-def bindPos : List Param → List String → Option (List (String × Val))
-  | [], [] => some []
-  | [], _ :: _ => none
-  | p :: ps, toks =>
-    match p.kind with
-    | .positional =>
-      match toks with
-      | [] => none
-      | t :: ts => do
-        let v ← convert p.conv t
-        let r ← bindPos ps ts
-        pure ((p.name, v) :: r)
-    | .varPositional => do
-      let vs ← toks.mapM (convert p.conv)
-      let r ← bindPos ps []
-      pure ((p.name, .list vs) :: r)
-    | _ => bindPos ps toks
+/-- one run of positional-looking strings -/
+def bindWords : List Tok → PState → Scan
+  | .word w :: rest, st =>
+    match st.posLeft with
+    | [] => bindWords rest { st with extras := true }
+    | p :: ps =>
+      match convert p.conv w with
+      | none => .stop (some (.error .badValue))
+      | some a =>
+        if p.kind = .varPositional then bindWords rest { st with star := st.star ++ [a] }
+        else bindWords rest { st with posLeft := ps, bound := st.bound ++ [(p.name, .one a)] }
+  | toks, st => .cont st toks
 
-def dupOpts : List (String × Val) → Bool
-  | [] => false
-  | (n, _) :: rest => rest.any (·.1 == n) || dupOpts rest
+def Param.isPos (p : Param) : Bool := p.kind == .positional || p.kind == .varPositional
 
-def parseMethod (member : String) (params : List Param) (toks : List String) : Parsed :=
-  let fl := assignFlags params []
-  let st := scan fl toks { opts := [], pos := [], posEnded := false, bad := none }
-  match st.bad with
-  | some b => b
-  | none =>
-    if dupOpts st.opts then .outside else
-    match bindPos params st.pos with
-    | none => .error
-    | some posArgs =>
-      let optArgs := params.filterMap fun p =>
-        if p.kind = .optional ∨ p.kind = .flag then
-          some (p.name, match st.opts.find? (·.1 == p.name) with
-            | some (_, v) => v
-            | none => if p.kind = .flag then .bool false else .default p.default)
-        else none
-      .call member (posArgs ++ optArgs)
+def lookupArg (l : List (Str × ArgVal)) (n : Str) : Option ArgVal := (l.find? fun a => a.1 == n).map (·.2)
 
-def parseLine (t : Table) (toks : List String) : Parsed :=
+/-- the namespace entry of a parameter once parsing is over -/
+def argFor (st : PState) (p : Param) : ArgVal :=
+  match p.kind with
+  | .positional => (lookupArg st.bound p.name).getD .dflt
+  | .varPositional => .many st.star
+  | .optional => (lookupArg st.opts p.name).getD .dflt
+  | .flag => (lookupArg st.opts p.name).getD (.flag false)
+
+def finish (m : Member) (st : PState) : Option Verdict :=
+  match m.kind with
+  | .function =>
+    if st.posLeft.any (fun p => p.kind == .positional) then some (.error .missing)
+    else if st.extras then some (.error .unrecognized)
+    else some (.act (.call m.name (m.params.map fun p => (p.name, argFor st p))))
+  | .propRW =>
+    if st.extras then some (.error .unrecognized)
+    else match st.bound with
+      | (_, .one a) :: _ => some (.act (.set m.name a))
+      | _ => some (.act (.get m.name))
+  | .propRO => if st.extras then some (.error .unrecognized) else some (.act (.get m.name))
+  | .other => none
+
+/-- a var-positional parameter must be the last positional one (argparse's regex matching of a `*`
+followed by further positionals is not modelled) -/
+def canonicalPos : List Param → Bool
+  | [] => true
+  | p :: ps => if p.kind == .varPositional then ps.isEmpty else canonicalPos ps
+
+def initState (m : Member) : PState :=
+  { posLeft := m.params.filter Param.isPos, bound := [], star := [], opts := [], extras := false }
+
+def unknownLong (tbl : List OptSpec) : Tok → Bool
+  | .long n => (findLong tbl n).isNone
+  | _ => false
+
+def startsWithWord : List Tok → Bool
+  | .word _ :: _ => true
+  | _ => false
+
+def parseCmd (c : Cmd) (toks : List Tok) : Option Verdict :=
+  let m := c.member
+  let tbl := optTable m.params
+  if toks.any (unknownLong tbl) then none else
+  match scanOpts m.name tbl toks (initState m) with
+  | .stop v => v
+  | .cont st1 r1 =>
+    if startsWithWord r1 && !canonicalPos st1.posLeft then none else
+    match bindWords r1 st1 with
+    | .stop v => v
+    | .cont st2 r2 =>
+      match scanOpts m.name tbl r2 st2 with
+      | .stop v => v
+      | .cont st3 r3 => if r3.isEmpty then finish m st3 else none
+
+/-- `none`: the line is outside the modelled fragment -/
+def parseLine (t : Table) (toks : List Tok) : Option Verdict :=
+  if toks.any Tok.isOther then none else
   match toks with
-  | [] => .outside
-  | c :: rest =>
-    if c == "-h" || c == "--help" then .help
-    else match t.find? (fun cmd => cmd.name == c) with
-    | none => if looksOptional c then .outside else .error
-    | some cmd =>
-      match cmd.target with
-      | .method ps => parseMethod cmd.member ps rest
-      | .propRO => match rest with
-        | [] => .get cmd.member
-        | r => if r.contains "-h" || r.contains "--help" then .help else .error
-      | .propRW conv => match rest with
-        | [] => .get cmd.member
-        | [v] => if v == "-h" || v == "--help" then .help
-                 else if looksOptional v then .error
-                 else match convert conv v with | some x => .set cmd.member x | none => .error
-        | r => if r.contains "-h" || r.contains "--help" then .help else .error
+  | [] => none
+  | .word w :: rest =>
+    match lookupCmd t w.text with
+    | none => some (.error .unknownCommand)
+    | some c => parseCmd c rest
+  | .short c :: _ => if c = 'h' then some (.help none) else none
+  | .long n :: _ => if n = helpName then some (.help none) else none
+  | .other :: _ => none
 
-/-! ### rendering (for the round-trip theorem and for the generator) -/
+/-! ### dispatch (`_exec_method_and_respond`) and the reply rule -/
 
-def Val.render : Val → String
-  | .int i => toString i | .str s => s | .raw s => s | .bool _ => "" | .default r => r
-  | .list l => " ".intercalate (l.map Val.render)
+structure Invocation where
+  pos  : List ArgVal                   -- `*normal_pos`
+  star : List Atom                     -- `*var_pos`
+  kw   : List (Str × ArgVal)           -- `**kwargs`
+deriving DecidableEq, Repr, Inhabited
+
+def starOf : ArgVal → List Atom
+  | .many l => l
+  | _ => []
+
+/-- the namespace `args` is aligned with the signature `ps` -/
+def dispatch (ps : List Param) (args : List (Str × ArgVal)) : Invocation :=
+  let z := ps.zip args
+  { pos := (z.filter fun pa => pa.1.pass == .byPosition).map (·.2.2),
+    star := ((z.filter fun pa => pa.1.pass == .byStar).map (fun pa => starOf pa.2.2)).flatten,
+    kw := (z.filter fun pa => pa.1.pass == .byKeyword).map (·.2) }
+
+/-- what executing the method / property did -/
+inductive Outcome
+  | none                    -- returned `None`
+  | value (s : Str)         -- returned something else; `s` = `str(result)`
+  | raised (s : Str)        -- raised an `Exception`; `s` = `str(exception)`
+deriving DecidableEq, Repr, Inhabited
+
+def okText : Str := ['o', 'k']
+def noneText : Str := ['N', 'o', 'n', 'e']
+
+def Action.isGet : Action → Bool
+  | .get _ => true
+  | _ => false
+
+/-- methods and setters: `ok` for `None`, else the text; a getter always writes `str(result)` -/
+def replyText (a : Action) : Outcome → Str
+  | .none => if a.isGet then noneText else okText
+  | .value s => s
+  | .raised s => s
+
+/-! ### writing a command line (specification side of the round trip) -/
+
+/-- one option on the command line -/
+structure Choice where
+  p     : Param
+  short : Option Char        -- write `-c` (must be the flag assigned to `p`); `none`: write the long form
+  w     : Word               -- its value (a flag has none)
+  a     : Atom               -- what the value converts to
+deriving Repr, Inhabited
+
+def Choice.tok (c : Choice) : Tok :=
+  match c.short with
+  | some f => .short f
+  | none => .long (dash c.p.name)
+
+def Choice.val (c : Choice) : ArgVal := if c.p.kind = .flag then .flag true else .one c.a
+
+def Choice.render (c : Choice) : List Tok := if c.p.kind = .flag then [c.tok] else [c.tok, .word c.w]
+
+def renderOpts (cs : List Choice) : List Tok := cs.flatMap Choice.render
+
+/-- the choice names an option of the method, in a form the parser built for it, with a value its converter accepts -/
+def Choice.ok (ps : List Param) (c : Choice) : Prop :=
+  c.p ∈ ps ∧ c.p.isOpt = true ∧ (∀ f, c.short = some f → (c.p, some f) ∈ assignFlags ps [])
+    ∧ (c.p.kind ≠ .flag → convert c.p.conv c.w = some c.a)
+
+/-- a positional argument string and what it converts to -/
+structure PosArg where
+  w : Word
+  a : Atom
+deriving Repr, Inhabited
+
+def PosArg.ok (p : Param) (x : PosArg) : Prop := convert p.conv x.w = some x.a
+
+/-- one value per single positional parameter, each accepted by its converter -/
+def posOk : List Param → List PosArg → Prop
+  | [], [] => True
+  | p :: ps, x :: xs => x.ok p ∧ posOk ps xs
+  | _, _ => False
+
+def renderPos (xs : List PosArg) : List Tok := xs.map fun x => .word x.w
+
+def optEntries (cs : List Choice) : List (Str × ArgVal) := (cs.map fun c => (c.p.name, c.val)).reverse
+
+/-- the namespace the round trip must end in: every single positional bound to its value, the var-positional to
+all of its values, every written option to its value -/
+def finalState (singles starL : List Param) (pargs sargs : List PosArg) (cs : List Choice) : PState :=
+  { posLeft := starL, bound := (singles.zip pargs).map (fun x => (x.1.name, .one x.2.a)),
+    star := sargs.map (·.a), opts := optEntries cs, extras := false }
+
+/-! ### well-formed member tables (what `inspect` delivers for a class whose code compiles) -/
+
+def isIdentChar (c : Char) : Bool := c.isAlphanum || c == '_'
+def isIdent (n : Str) : Bool := !n.isEmpty && n.all isIdentChar
+
+def paramsOk (ps : List Param) : Bool :=
+  ps.all (fun p => isIdent p.name) && distinctB (ps.map (·.name))
+  && ps.all (fun p => !(p.isOpt && (dash p.name == helpName)))
+
+def Member.ok (m : Member) : Bool := isIdent m.name && (!m.exposed || paramsOk m.params)
+
+def wellFormed (ms : List Member) : Bool := ms.all Member.ok && distinctB (ms.map (·.name))
 
 end Taskpool.Control
